@@ -781,6 +781,30 @@ func (e *effEngine) normFresh(fn *ssa.Function, q apath, depth int) []apath {
 			return out
 		}
 	}
+	// no store to that field of the fresh object: it may have been filled by a whole-struct copy
+	// (only for locations behind a reference held in the copy - an element of a slice or map: the copy's own
+	// fields are the copy's own memory)
+	behindRef := false
+	for _, s := range sels {
+		if s == "[]" {
+			behindRef = true
+		}
+	}
+	if len(sels) >= 1 && behindRef {
+		if stored, ok := st.freshFld[apath{kind: rFresh, name: q.name}.String()+"/*"]; ok {
+			var out []apath
+			for _, sp := range stored {
+				nq := sp
+				for _, s := range sels {
+					nq = nq.add(s)
+				}
+				out = append(out, e.normFresh(fn, nq, depth+1)...)
+			}
+			if len(out) > 0 {
+				return out
+			}
+		}
+	}
 	return []apath{q}
 }
 
@@ -816,6 +840,22 @@ func (e *effEngine) buildFreshFld(fn *ssa.Function) {
 						st.freshFld[k] = pathSet{}
 					}
 					st.freshFld[k].addAll(e.prov(fn, sto.Val))
+				}
+				continue
+			}
+			if al, isA := sto.Addr.(*ssa.Alloc); isA {
+				// a struct copied into a fresh local as a whole: its reference-typed fields alias the original's
+				if _, isStruct := al.Type().(*types.Pointer).Elem().Underlying().(*types.Struct); isStruct {
+					k := apath{kind: rFresh, name: freshName(e.c, al)}.String() + "/*"
+					for _, p := range e.prov(fn, sto.Val) {
+						if p.kind == rFresh {
+							continue
+						}
+						if st.freshFld[k] == nil {
+							st.freshFld[k] = pathSet{}
+						}
+						st.freshFld[k].add(p)
+					}
 				}
 				continue
 			}
@@ -887,9 +927,29 @@ func (e *effEngine) summarize(fn *ssa.Function) bool {
 	e.buildFreshFld(fn)
 	changed := false
 	initOnce := isInitOnce(fn)
-	addEff := func(ef effect) {
+	var addEff func(ef effect)
+	addEff = func(ef effect) {
+		if os.Getenv("EFF_DEBUG") != "" && fn.Name() == os.Getenv("EFF_DEBUG") && writeKinds[ef.kind] {
+			var nf []string
+			for _, nq := range e.normFresh(fn, ef.target, 0) {
+				nf = append(nf, nq.String())
+			}
+			fmt.Printf("DEBUG eff %s %s -> %v at %s\n", ef.kind, ef.target, nf, e.c.pos(ef.pos))
+		}
+		// a location inside an object allocated during this call is invisible to every caller - unless the path
+		// leads, through what was stored into the fresh object (a pointer kept in it, a struct copied into it as
+		// a whole), back into memory the caller can see: the write is then also recorded under that name
+		if writeKinds[ef.kind] && ef.target.kind == rFresh && len(ef.chain) == 0 && ef.fn == fn {
+			for _, nq := range e.normFresh(fn, ef.target, 0) {
+				if nq.kind != rFresh && nq.String() != ef.target.String() {
+					e2 := ef
+					e2.target = nq
+					addEff(e2)
+				}
+			}
+		}
 		if writeKinds[ef.kind] && isFreshTarget(ef.target) {
-			return // a location inside an object allocated during this call: invisible to every caller
+			return
 		}
 		if initOnce {
 			ef.initOnly = true
